@@ -8,6 +8,7 @@ import Cpf.Query.WF
 import Cpf.Query.Console
 import Cpf.Query.Output
 import Cpf.Scan.Build
+import Cpf.Scan.Attrs
 import Cpf.Generated.Grammar
 
 open Cpf.Query Cpf.Go Cpf.Generated
@@ -70,6 +71,64 @@ partial def parseTree : List String → Option (T × List String)
       | none => none
   | _ => none
 
+open Cpf.Scan in
+/-- flat attribute view of the entities produced at node `n` (kind-specific), values hex-encoded -/
+def attrFields (n : T) (prev : Option T) (src : Bytes) (kind : String) : List (String × String) :=
+  let s (b : Bytes) : String := "s:" ++ tohex b
+  let l (bs : List Bytes) : String := "l:" ++ ",".intercalate (bs.map tohex)
+  let o (ob : Option Bytes) : String := match ob with | some b => "s:" ++ tohex b | none => "n"
+  let tags (ts : List Tag) : List (String × String) :=
+    [("tags.name", l (ts.map (·.name))), ("tags.text", l (ts.map (·.text))), ("tags.type", l (ts.map (·.docType)))]
+  if kind = "method_declaration" then
+    let a := methodAttrs n src
+    [("name", s a.name), ("modifier", s a.modifier), ("returnType", s a.returnType), ("argTypes", l a.argTypes),
+     ("argValues", l a.argValues), ("throws", l a.throws), ("annotations", l a.annotations)]
+    ++ (match javadocOf prev src with | some ts => tags ts | none => [("tags", "n")])
+  else if kind = "class_declaration" then
+    let a := classAttrs n src
+    [("name", s a.name), ("modifier", s a.modifier), ("superClass", s a.superClass), ("interfaces", l a.interfaces),
+     ("annotations", l a.annotations)]
+    ++ (match javadocOf prev src with | some ts => tags ts | none => [("tags", "n")])
+  else if kind = "variable_declaration" then
+    let a := varAttrs n src
+    [("name", s a.name), ("modifier", s a.modifier), ("dataType", s a.dataType), ("scope", s a.scope), ("value", s a.value)]
+  else if kind = "method_invocation" then
+    [("name", s (invocationName n src)), ("argValues", l (callArgs n src))]
+  else if kind = "ClassInstanceExpr" then
+    [("name", s (classNameOf n src)), ("classInst.name", s (classNameOf n src)),
+     ("classInst.args.type", l ((newArgs n src).map (fun a => str a.1))), ("classInst.args.text", l ((newArgs n src).map (·.2)))]
+  else if kind = "block_comment" then tags (parseJavadocTags (n.content src))
+  else if kind = "IfStmt" then
+    [("if.cond", o (childContent n 1 src)), ("if.then", s ((childContent n 2 src).getD [])), ("if.else", s ((childContent n 4 src).getD []))]
+  else if kind = "WhileStmt" then [("while.cond", o (childContent n 1 src))]
+  else if kind = "DoStmt" then [("do.cond", o (fieldContent n "condition" src))]
+  else if kind = "ForStmt" then
+    [("for.init", o (fieldContent n "init" src)), ("for.cond", o (fieldContent n "condition" src)), ("for.incr", o (fieldContent n "update" src))]
+  else if kind = "BreakStmt" then [("break.label", s (labelOf n src))]
+  else if kind = "ContinueStmt" then [("continue.label", s (labelOf n src))]
+  else if kind = "YieldStmt" then [("yield.value", o (childContent n 1 src))]
+  else if kind = "AssertStmt" then [("assert.expr", o (childContent n 1 src)), ("assert.msg", o (assertMessage n src))]
+  else if kind = "ReturnStmt" then [("return.result", o (returnResult n src))]
+  else if kind = "BlockStmt" then [("block.stmts", l (blockStmts n src))]
+  else if n.ty = "binary_expression" then
+    [("binary.op", s (((n.childByField "operator").map (fun x => str x.ty)).getD [])),
+     ("binary.left", o (fieldContent n "left" src)), ("binary.right", o (fieldContent n "right" src))]
+  else []
+
+open Cpf.Scan in
+partial def attrWalk (src file : Bytes) (n : T) (prev : Option T) : List String :=
+  let here :=
+    match emitAt n src file with
+    | .ok es => es.flatMap (fun e =>
+        let fs := attrFields n prev src e.kind
+        [tohex e.pre, toString fs.length] ++ fs.flatMap (fun p => [p.1, p.2]))
+    | _ => []
+  let rec kids (cs : List T) (p : Option T) : List String :=
+    match cs with
+    | [] => []
+    | c :: rest => attrWalk src file c p ++ kids rest (some c)
+  here ++ kids n.children none
+
 def handle (fields : List String) : List String :=
   match fields with
   | ["ping"] => ["pong"]
@@ -118,6 +177,10 @@ def handle (fields : List String) : List String :=
                 ++ [toString st.edges.length] ++ st.edges.flatMap (fun e => [tohex e.1, tohex e.2])
           | .diag m => ["diag", m]
           | .panic m => ["panic", m]
+  | "scan-attrs" :: file :: srcHex :: tree =>
+      match parseTree tree with
+      | none => ["bad-tree"]
+      | some (t, _) => "ok" :: attrWalk (unhex srcHex) (Cpf.Scan.str file) t none
   | ["cond", q] =>
       match prepare q.toList with
       | .ok p =>
